@@ -420,6 +420,58 @@ func bucketLen(n int) string {
 	}
 }
 
+// outputs kept to be compared again at the end of the run (a returned slice sharing a buffer with later
+// calls would change), and transactions signed again from several goroutines at once
+type keptOut struct {
+	in      *input
+	out     []byte
+	outCopy []byte
+	pl      []byte
+	plCopy  []byte
+}
+
+var keptOuts []keptOut
+
+func verifyKept(st *cv.Stats) {
+	bad := 0
+	for _, k := range keptOuts {
+		if !bytes.Equal(k.out, k.outCopy) || !bytes.Equal(k.pl, k.plCopy) {
+			bad++
+			if bad <= 3 {
+				st.ImplFailures = append(st.ImplFailures, map[string]interface{}{"what": "signed bytes / signature payload returned earlier changed after later calls", "key": "", "input": k.in})
+			}
+		}
+	}
+	st.Extra["retained_outputs_reverified"] = len(keptOuts)
+	// the same transactions, each signed by 8 goroutines at once with one shared KeyPair and one shared struct
+	n := 0
+	for i, k := range keptOuts {
+		if k.in.Kind != kindKeyPair || len(k.outCopy) == 0 || i%7 != 0 || n >= 40 {
+			continue
+		}
+		n++
+		key, _ := hex.DecodeString(k.in.Key)
+		kp := secp256k1.KeyPairFromBytes(key)
+		t := k.in.build()
+		res := make(chan bool, 8)
+		for g := 0; g < 8; g++ {
+			go func() {
+				o, c := callSign(t, k.in.Mode, kp, k.in.Chain)
+				res <- c == 0 && bytes.Equal(o, k.outCopy)
+			}()
+		}
+		ok := true
+		for g := 0; g < 8; g++ {
+			ok = <-res && ok
+		}
+		if !ok {
+			st.ImplFailures = append(st.ImplFailures, map[string]interface{}{"what": "signing the same transaction from concurrent goroutines gave different bytes", "key": "", "input": k.in})
+		}
+	}
+	st.Extra["concurrently_signed"] = n
+	keptOuts = nil
+}
+
 func (rn *runner) run(in *input) {
 	st := rn.st
 	if b, err := json.Marshal(in); err == nil {
@@ -465,6 +517,9 @@ func (rn *runner) run(in *input) {
 	_, pl, hash, plok := callPayload(t, in.Mode, in.Chain)
 	if !plok {
 		st.ImplFailures = append(st.ImplFailures, map[string]interface{}{"what": "SignaturePayload panicked", "input": in})
+	}
+	if len(out) <= 2048 && len(keptOuts) < 2000 {
+		keptOuts = append(keptOuts, keptOut{in, out, append([]byte{}, out...), pl, append([]byte{}, pl...)})
 	}
 	// every message the signer was asked to sign is the signature payload (normally exactly one)
 	msgSame := len(msgs) >= 1
@@ -1073,6 +1128,12 @@ func main() {
 		rn.run(in)
 	}
 
+	verifyKept(st)
+
+	// --- 9. data of 2^24 bytes and more (4-byte RLP lengths): Go-side oracle, see bigdata.go ---
+	nBig := bigDataCases(st, r, stdKey, thorough)
+	st.Extra["big_data_cases_judged_in_go"] = nBig
+
 	// the address of every key whose signatures were judged inside Coq: library vs Secp256k1Exec
 	var jk []string
 	for k := range rn.judgedKeys {
@@ -1089,7 +1150,7 @@ func main() {
 		panic(err)
 	}
 	os.Remove(rn.cur)
-	st.Evaluations = rn.w.Count()
+	st.Evaluations = rn.w.Count() + nBig
 	st.Rule = "transactions built field by field: every integer field at 0, 1, 0x7f, 0x80, 2^8k-1, 2^8k (k=1..32), 2^256-1 and nil, one at a time and all together; destination nil / zero / 0xff.. / leading-zero / random; data nil, empty, 1 byte (<0x80, >=0x80), 2, 54..57, 255..257, 65535, 65536 bytes; data length solved so that the whole signed bytes and the whole signature payload are exactly 55..57, 255..259 (65535..65540 thorough) bytes; chain ids 0, 1, 1337, 2^31, 2^53 and the values where 2c+35 changes width; keys 1, 2, n-1, n-2, keys with 1/2/30 leading zero bytes, random; signatures searched until R or S is shorter than 32 bytes; every case in each of the four modes or cycling through them; plus nil / failing / arbitrary-answer signers and random transactions. Each case: Sign*, SignaturePayload*.Bytes()/Hash(), a second Sign*, the Finalize* path by hand, RecoverRawTransaction of the output, deep comparison of the caller's struct. distinct = distinct (mode, transaction, chain id, key, signer); trivial (nil / failing signer) cases are not counted"
 	if err := st.Write(filepath.Join(*out, "stats_C01.json")); err != nil {
 		panic(err)
